@@ -47,6 +47,9 @@ CHECKS = {
  "C12": dict(cat="exploration", technique="runtime oracle on AllocIP replies of the real networkService in local / CRD / PodENI mode (independent subnet + gateway evaluator, default-route and primary-interface counting, reply-vs-record comparison) + in-package differential monitor of the plugin's parseSetupConf/parseCheckConf/parseTearDownConf against the datapath table",
      text="Replies are produced by the real daemon over (i) the local pool on the simulated cloud, (ii) the real CRDV2.multiIP over generated Node CRs and (iii) the real eni.Remote over generated PodENI objects with 1..4 interfaces, trunk or not, 0/1/2/all default-route flags, with and without eth0; each reply must name one default route and the primary interface, carry addresses inside the reported subnet with the third-from-last gateway != address, and malformed allocations must be rejected. In plugin/terway (overlay) 40k generated (daemon configuration x CNI configuration) pairs are parsed for ADD/CHECK/DEL and compared field by field and against the (IP type, trunk, vlan mode) table.",
      note="Node CR / PodENI contents are generated well-formed apart from the flag patterns under test; MAC \"\" resolves to lo where the plugin needs a kernel device.", ref="§2 C12"),
+ "C19": dict(cat="exploration", technique="differential runtime oracle: independent arithmetic on generated instance-type vectors vs the real limit provider -> checkInstance/getPoolConfig and controller ReconcileNode -> daemon-side nodeReconcile -> controller (annotations, allocatable) on the simulated API server",
+     text="Instance-type vectors and configurations are generated; the real LimitProviders[ecs] (GetLimit over a simulated DescribeInstanceTypes, and GetLimitFromAnno), daemon checkInstance/getPoolConfig, controller node.ReconcileNode and the daemon-side Node-CR reconciler are run in their production order; every advertised number (MaxENI, per-ENI addresses, capacity, watermarks, member ENIs, RDMA capacity, flavor counts, max-available-ip, allocatable eni/member-eni) is compared with the independently computed instance limits, and features the type lacks must be reported disabled.",
+     note="Default ratio 1 / shift 0, non-negative sizes. The daemon-side ERDMA flavor is not exercised (enabling it starts the kubelet device plugin, which exits the process in this sandbox).", ref="§2 C19"),
 }
 NOT_YET = {}
 
